@@ -576,8 +576,8 @@ func critDesc(c *imap.SearchCriteria) string { return coqCriteria(c) }
 
 func runC19(h *H) {
 	imports := []string{"From GoImap.Base Require Import Bytes.", "From GoImap.Model Require Import NumSet Search SearchCorr."}
-	andCorr := h.NewCorr("and", imports, "and_mismatches", 400)
-	keyCorr := h.NewCorr("keys", imports, "keys_mismatches", 400)
+	andCorr := h.NewCorr("and", imports, "and_mismatches", 400).Type("and_case")
+	keyCorr := h.NewCorr("keys", imports, "keys_mismatches", 400).Type("keys_case")
 	g := &c19{h: h, u: universe()}
 	h.Rule("(1) SearchCriteria.And on generated pairs of criteria (every field set/unset, sizes incl. 0 and negative, nested NOT/OR to depth 2): field-by-field against the model, and match results of an independent matcher on a message universe whose dates span months and years distinguishing every field; (2) SEARCH commands (1..5 keys, all key kinds, NOT/OR/parenthesised lists, every permutation when <= 4 keys) through the real server parser to a recording stub session: recorded criteria against the model's parse_keys and against the RFC meaning of each key on the universe. Non-trivial = both operands constrain the same date/size field, or the command has >= 2 keys; distinct by rendered case.")
 
